@@ -103,11 +103,17 @@ def run(res, tier, seed, replay):
     else:
         special += [([f], "delete") for f in tool_files if f.endswith("link") or "link" in os.path.basename(f)][:1]
     plan = [(f, k, True) for f, k in special] + [(f, k, tier != "quick") for f, k in plan[:quota]]
+    # the whole build cache lost while cmd/go's cache still has every dependency compiled, then only main (and the edited
+    # dependency) recompiled: main must recover what it needs about dependencies that are NOT recompiled (wrap reaches
+    # reflection only through encoding/json)
+    plan.insert(1, (["ALL"], "delete", False))
     edits = 0
     leaf = os.path.join(pdir, "asmlib", "add.go")
     main_go = os.path.join(pdir, "internal", "secret", "secret.go")   # edited file: a dependency of main (main.go itself carries injected code whose positions would move)
     main_src = open(main_go).read()
     for files, kind, force_all in plan:
+        if files == ["ALL"]:
+            files = cache_files(os.path.join(caches.garble_cache, "build"))
         for f in files:
             if not os.path.exists(f):
                 continue
@@ -145,6 +151,29 @@ def run(res, tier, seed, replay):
         if e2e.sha256_file(out_bin) != ref_sha or e2e.run_bin(out_bin)[:2] != ref_out:
             res.violation("rebuild-differs:%s:%d" % (kind, len(files)), "after %s the rebuild produces another binary or output than the cold build" % what,
                           {"fault": kind, "files": [os.path.relpath(f, caches.garble_cache) for f in files], "module": "corpus/mod2", "flags": gflags})
+    # ---- 3. the whole build cache lost, then main.go itself edited: only main is recompiled and must recover what it needs about
+    #         every dependency from cmd/go's cache (wrap reaches reflection only through encoding/json); compared with a cold build
+    #         of the edited source
+    open(main_go, "w").write(main_src)
+    shutil.rmtree(os.path.join(caches.garble_cache, "build"), ignore_errors=True)
+    mg = os.path.join(pdir, "main.go")
+    msrc = open(mg).read()
+    assert '"svc"' in msrc
+    open(mg, "w").write(msrc.replace('"svc"', '"svc-edited"'))
+    out1, out2 = os.path.join(pdir, "edited-warm.bin"), os.path.join(pdir, "edited-cold.bin")
+    r1 = e2e.garble_build(garble, proj, out1, garble_flags=gflags, flags=XFLAGS, caches=caches, extra_env=env_extra, timeout=1500)
+    cold = e2e.Caches("c07cold")
+    r2 = e2e.garble_build(garble, proj, out2, garble_flags=gflags, flags=XFLAGS, caches=cold, extra_env=env_extra, timeout=1500)
+    cold.remove()
+    builds += 2
+    if r1.returncode != 0 or r2.returncode != 0:
+        res.violation("lost-cache-edit-main-fails", "GARBLE_CACHE/build deleted, main.go edited: the rebuild fails (warm %d, cold %d): %s"
+                      % (r1.returncode, r2.returncode, (r1.stderr + r2.stderr).decode()[-300:]), {"module": "corpus/mod2", "flags": gflags})
+    elif e2e.run_bin(out1)[:2] != e2e.run_bin(out2)[:2] or e2e.sha256_file(out1) != e2e.sha256_file(out2):
+        res.violation("lost-cache-edit-main", "GARBLE_CACHE/build deleted (cmd/go's cache intact), then main.go edited: the rebuild prints %r, a cold build of the same source prints %r"
+                      % (e2e.run_bin(out1)[1][-120:], e2e.run_bin(out2)[1][-120:]),
+                      {"module": "corpus/mod2", "flags": gflags, "history": ["cold build", "rm -r GARBLE_CACHE/build", "edit main.go", "build"]})
+    open(mg, "w").write(msrc)
     caches.remove()
     res.cov["evaluations"] += builds
     res.cov["fault_rebuilds"] = builds - 1
